@@ -246,6 +246,7 @@ func (h *FBDNSDB) watchDBAndReload(watcher *fsnotify.Watcher) (err error) {
 		case <-h.done:
 			return nil
 		case ev := <-watcher.Events:
+			verifhook.Yield("watchdb.event")
 			if filterEvent(ev.Op) && path.Clean(ev.Name) == h.dbPath() {
 				if !h.signalReload(*NewPartialReloadSignal()) {
 					return nil
@@ -257,6 +258,7 @@ func (h *FBDNSDB) watchDBAndReload(watcher *fsnotify.Watcher) (err error) {
 
 // dbPath returns the path of the served DB; a full reload changes it under reloadMu
 func (h *FBDNSDB) dbPath() string {
+	verifhook.YieldRLock("dbpath.rlock", &h.reloadMu)
 	h.reloadMu.RLock()
 	defer h.reloadMu.RUnlock()
 	return h.dbConfig.Path
@@ -306,6 +308,7 @@ func (h *FBDNSDB) watchControlDirAndReload(watcher *fsnotify.Watcher) (err error
 		case <-h.done:
 			return nil
 		case ev := <-watcher.Events:
+			verifhook.Yield("watchctl.event")
 			if !filterControlEvent(ev.Op) {
 				continue
 			}
